@@ -5,7 +5,7 @@ pid = sys.argv[1]; n = sys.argv[2] if len(sys.argv) > 2 else "3"
 tests = sys.argv[3] if len(sys.argv) > 3 else ""
 p = [json.loads(l) for l in open('/verif/properties.jsonl') if json.loads(l)['id'] == pid][0]
 wt = "/tmp/seed-%s" % pid.lower(); out = "/tmp/seed-%s-out" % pid.lower()
-print(f"""You are testing how well a verification suite detects realistic bugs. You work ONLY in the scratch git worktree {wt} (a checkout of DistCompiler/pgo: PGo, a Scala compiler from Modular PlusCal to Go, plus the Go `distsys` runtime and generated systems under systems/). Do not read or write anything under /verif or /repo. Environment: no network. Go 1.24. For the `distsys` module use `export GOFLAGS=-mod=mod GOPROXY=off GOWORK=off`; for modules under systems/ and pgo/test/files/ use workspace mode instead (`unset GOFLAGS GOWORK; export GOPROXY=off`, the go.work at the worktree root links them to ./distsys). Some existing tests use fixed TCP ports and other people's test runs on this machine may hold them for a while ("address already in use"): retry later rather than concluding anything from that.
+print(f"""You are testing how well a verification suite detects realistic bugs. You work ONLY in the scratch git worktree {wt} (a checkout of DistCompiler/pgo: PGo, a Scala compiler from Modular PlusCal to Go, plus the Go `distsys` runtime and generated systems under systems/). Do not read or write anything under /verif or /repo. Environment: no network. Go 1.24. For the `distsys` module use `export GOFLAGS=-mod=mod GOPROXY=off GOWORK=off`; for modules under systems/ and pgo/test/files/ use workspace mode instead (`unset GOFLAGS GOWORK; export GOPROXY=off`, the go.work at the worktree root links them to ./distsys). Some existing tests use fixed TCP ports and other people's test runs on this machine may hold them for a while ("address already in use"): retry later rather than concluding anything from that. Do NOT run the tests of systems/raftres (not part of the project's passing baseline; they time out on a clean checkout) and run raftkvs tests only if your change touches raftkvs.
 
 The semantic property under test ({pid} — {p['title']}):
 
